@@ -1,7 +1,8 @@
 (** C08 — multisequence_partition / multisequence_selection split sorted runs at the exact global rank.
-    Statements only; proofs live in C08/MSPSpec.v, C08/MSPCheck.v, C08/MSPMerge.v, C08/MSPAlgo.v. *)
+    Statements only; proofs live in C08/MSPSpec.v, C08/MSPCheck.v, C08/MSPMerge.v, C08/MSPAlgo.v and, for the
+    algorithm, C08/MSPArr.v, C08/MSPLoop.v (loop invariant), C08/MSPInit.v (initial partition), C08/MSPCorrect.v, C08/MSPSelect.v. *)
 From Coq Require Import List ZArith Sorting.Sorted Sorting.Permutation.
-From TLXV Require Import Common.Order C08.MSP C08.MSPSpec C08.MSPCheck C08.MSPMerge C08.MSPAlgo.
+From TLXV Require Import Common.Order C08.MSP C08.MSPSpec C08.MSPCheck C08.MSPMerge C08.MSPAlgo C08.MSPCorrect C08.MSPSelect.
 Import ListNotations.
 
 (** The property's three clauses (left parts hold exactly [r] elements; no left element is greater than a right
@@ -71,24 +72,36 @@ Theorem C08_partition_full_rank : forall (A : Type) (ltb : A -> A -> bool), SWO 
 Proof. exact (@partition_full_rank). Qed.
 Print Assumptions C08_partition_full_rank.
 
-(** Algorithm, rank < N — PARTIAL.  Full statement (not proved, see C08/MSPAlgo.v):
-      forall seqs r, SWO ltb -> dflt seqs <> None -> any_empty seqs = false -> all_sorted ltb seqs -> r <= total seqs ->
-        partition ltb seqs (Z.of_nat r) = Some (map Z.of_nat (split_spec ltb seqs r)).
-    Proved: the conclusion holds for every answer that passes [check_split] (the hypothesis the full proof would
-    discharge; the check script establishes it for every answer of the implementation it runs). *)
-Theorem C08_partition_accepted_partial : forall (A : Type) (ltb : A -> A -> bool), SWO ltb -> forall (seqs : list (list A)) (r : nat) (offs : list Z),
-  all_sorted ltb seqs -> r <= total seqs ->
-  partition ltb seqs (Z.of_nat r) = Some offs ->
-  check_split ltb seqs r (map Z.to_nat offs) = true ->
-  offs = map Z.of_nat (split_spec ltb seqs r) /\ is_split ltb seqs r (split_spec ltb seqs r).
-Proof. exact (@partition_accepted_partial). Qed.
-Print Assumptions C08_partition_accepted_partial.
+(** THE GOAL THEOREM for multisequence_partition: for every strict weak order, every non-empty tuple of non-empty
+    sorted sequences and every rank 0..N, the model of the (repaired) algorithm — padding to 2^k-1, sample sort,
+    halving loop with lmax, `middle` test by (value, sequence), skew, both priority-queue corrections — returns
+    exactly the split determined by the property (C08_spec_unique / C08_split_spec_is_split): never the error
+    result, left parts hold exactly [r] elements, no left element above a right one, ties from lower-numbered
+    sequences first. ([dflt seqs <> None] says the tuple and its first sequence are non-empty; [any_empty seqs =
+    false] that no sequence is empty.) *)
+Theorem C08_partition_correct : forall (A : Type) (ltb : A -> A -> bool), SWO ltb -> forall (seqs : list (list A)) (r : nat),
+  dflt seqs <> None -> any_empty seqs = false -> all_sorted ltb seqs -> r <= total seqs ->
+  partition ltb seqs (Z.of_nat r) = Some (map Z.of_nat (split_spec ltb seqs r)).
+Proof. exact (@partition_correct). Qed.
+Print Assumptions C08_partition_correct.
 
-(** Selection, rank < N — NOT proved (stated only; tied by the correspondence run, where every answer of the
-    implementation is decided by [check_select], and evaluated exhaustively on small domains in C08/MSPAlgo.v):
-      forall seqs r, SWO ltb -> dflt seqs <> None -> any_empty seqs = false -> all_sorted ltb seqs -> r < total seqs ->
-        exists v off, selection ltb seqs (Z.of_nat r) = SelOk v off /\ (0 <= off)%Z /\
-                      check_select ltb seqs r v (Z.to_nat off) = true. *)
+(** THE GOAL THEOREM for multisequence_selection: for every strict weak order, every non-empty tuple of non-empty
+    sorted sequences and every rank 0..N-1 the model of the algorithm (same loop with the plain comparison, then
+    maxleft / minright and the offset by lower_bound) returns a value equivalent to the element at that rank of the
+    merged order, together with the number of equivalent elements before it. *)
+Theorem C08_selection_correct : forall (A : Type) (ltb : A -> A -> bool), SWO ltb -> forall (seqs : list (list A)) (r : nat),
+  dflt seqs <> None -> any_empty seqs = false -> all_sorted ltb seqs -> r < total seqs ->
+  exists v off w, selection ltb seqs (Z.of_nat r) = SelOk v off /\ (0 <= off)%Z /\
+                  select_spec ltb seqs r = Some (w, Z.to_nat off) /\ eqvb ltb v w = true.
+Proof. exact (@selection_meets_spec). Qed.
+Print Assumptions C08_selection_correct.
+
+(** ... and it throws exactly outside the documented domain (no data, or rank outside [0, N)). *)
+Theorem C08_selection_throws_iff : forall (A : Type) (ltb : A -> A -> bool) (seqs : list (list A)) (rank : Z),
+  selection ltb seqs rank = SelThrow <->
+  length seqs = 0 \/ (ztotal seqs = 0 \/ rank < 0 \/ ztotal seqs <= rank)%Z.
+Proof. exact (@selection_throws_iff). Qed.
+Print Assumptions C08_selection_throws_iff.
 
 (** The code as shipped (plain [comp] in the `middle` test) violates the tie rule; the repaired comparison does not. *)
 Theorem C08_partition_shipped_refuted :
